@@ -410,6 +410,48 @@ fn case_resolve(rng: &mut Rng) -> Option<(String, String, String, usize)> {
     None
 }
 
+// ---- the whole of parse() (C08 through the pipeline): tokens of a random sentence whose names come from a small pool,
+// so that unbound and re-bound names occur; empty initial context.  Reference: derivation of grammar.y -> raw tree ->
+// the three reference passes -> scoped_ref / resolve_ref.
+fn case_pipeline(g: &grammar::Grammar, rng: &mut Rng) -> Option<(String, String, String, usize)> {
+    let mut syms: Vec<(String, &'static str)> = vec![];
+    let budget = 1 + rng.below(3) as u32;
+    g.generate("term", budget, &mut |n| rng.below(n), &mut syms);
+    if syms.len() > 20 { return None; }
+    const POOL: [&str; 4] = ["a", "b", "c", "_"];
+    let toks: Vec<(String, String)> = syms.iter().map(|(k, _)| {
+        let text = match k.as_str() {
+            "IDENTIFIER" => POOL[rng.below(4) as usize].to_owned(),
+            "INTEGER_LITERAL" => format!("{}", rng.below(10)),
+            "TERMINATOR" => ";".to_owned(),
+            _ => String::new(),
+        };
+        (k.clone(), text)
+    }).collect();
+    let kinds: Vec<&str> = toks.iter().map(|(k, _)| k.as_str()).collect();
+    let texts: Vec<String> = toks.iter().map(|(_, t)| t.clone()).collect();
+    let leaked: Vec<&'static str> = texts.iter().map(|t| &*Box::leak(t.clone().into_boxed_str())).collect();
+    let real_tokens: Vec<token::Token<'static>> = kinds.iter().zip(&leaked).map(|(k, t)| make_token(k, t)).collect();
+    let mut memo = std::collections::HashMap::new();
+    let derivs = g.derive("term", &kinds, 0, kinds.len(), &mut memo);
+    if derivs.len() != 1 { return None; }
+    let raw = grammar::tree_of(&derivs[0], &texts);
+    let t1 = reference::p_pass(&["Application"], &raw);
+    let t2 = reference::p_pass(&["Product", "Quotient"], &t1);
+    let t3 = reference::p_pass(&["Sum", "Difference"], &t2);
+    let scoped = reference::scoped_ref(&t3, &std::collections::HashSet::new());
+    let want = reference::resolve_ref(&t3, &std::collections::HashMap::new(), 0);
+    let shown = toks.iter().map(|(k, t)| if t.is_empty() { k.to_lowercase() } else { format!("{}:{}", k.to_lowercase(), t) }).collect::<Vec<_>>().join(" ");
+    match parser::packrat_hooks::full_parse_core(&real_tokens) {
+        Ok(got) => {
+            if !scoped { return Some((format!("parse(tokens [{shown}])"), format!("ACCEPTED, result {got}"), "not well scoped (an unbound or re-bound name): must be rejected".into(), toks.len())); }
+            if got != want { return Some((format!("parse(tokens [{shown}])"), got, want, toks.len())); }
+            None
+        }
+        Err(_) => None,   // rejected: by scoping, or by the later definition-order check, which has no reference here
+    }
+}
+
 // Sanity test (bounded, NOT a proof) of the ASSUMED num-bigint contract used by the proofs: exact + - *, unary
 // minus, comparisons, and checked_div = None iff divisor 0, else the quotient truncated toward zero.
 fn bigint_contract() -> (u64, Option<String>) {
@@ -456,7 +498,7 @@ fn main() {
     let seed: u64 = args.get(2).and_then(|s| s.parse().ok()).unwrap_or(1);
     let count: u64 = args.get(3).and_then(|s| s.parse().ok()).unwrap_or(200_000);
     let mut rng = Rng(seed.wrapping_mul(0x9E37_79B9_7F4A_7C15) | 1);
-    let grammar = if target.starts_with("packrat") { Some(grammar::Grammar::load(args.get(4).map_or("/repo/grammar.y", |s| s.as_str()))) } else { None };
+    let grammar = if target.starts_with("packrat") || target == "pipeline" { Some(grammar::Grammar::load(args.get(4).map_or("/repo/grammar.y", |s| s.as_str()))) } else { None };
     panic::set_hook(Box::new(|_| {}));
     let mut best: Option<(String, String, String, usize)> = None;
     let mut tried = 0u64;
@@ -468,7 +510,7 @@ fn main() {
         let t = target.clone();
         let r = panic::catch_unwind(panic::AssertUnwindSafe(|| {
             let mut local = Rng(snapshot.0);
-            let out = if t == "resolve" { case_resolve(&mut local) } else if t.starts_with("packrat") { case_packrat(grammar.as_ref().unwrap(), &mut local, t == "packrat_complete") } else if t.starts_with("reassociate") { case_parser(&t, &mut local) } else { case(&t, &mut local) };
+            let out = if t == "resolve" { case_resolve(&mut local) } else if t == "pipeline" { case_pipeline(grammar.as_ref().unwrap(), &mut local) } else if t.starts_with("packrat") { case_packrat(grammar.as_ref().unwrap(), &mut local, t == "packrat_complete") } else if t.starts_with("reassociate") { case_parser(&t, &mut local) } else { case(&t, &mut local) };
             (out, local.0)
         }));
         match r {
@@ -480,7 +522,7 @@ fn main() {
         }
         if best.as_ref().map_or(false, |b| b.3 <= 4) { break; }
         // the packrat cases are slow (exhaustive derivation search): once something is found, shrink for a while and stop
-        if target.starts_with("packrat") { if best.is_some() { if found_at == 0 { found_at = tried; } else if tried > found_at + 3000 { break; } } }
+        if target.starts_with("packrat") || target == "pipeline" { if best.is_some() { if found_at == 0 { found_at = tried; } else if tried > found_at + 3000 { break; } } }
     }
     let esc = |s: &str| s.replace('\\', "\\\\").replace('"', "\\\"");
     match best {
